@@ -1,6 +1,893 @@
-pub fn gen(_seed: u64, _thorough: bool) -> Vec<String> {
-    vec![]
+//! C19: format metadata agrees with what the codecs actually do.
+//!
+//! Case kinds (first token):
+//!   `H x <dxgi 0..255> <alpha 0..4> <dim 2..4> <misc>`   DX10 header
+//!   `H f <fourcc u32>`                                   DX9 FourCC header
+//!   `H m <flags> <bits> <r> <g> <b> <a>`                 DX9 mask header
+//!   `M <fmt>`                                            metadata row of format number <fmt> (0..72)
+//!   `D <fmt> <w> <h> <seed>`                             decode byte consumption
+//!   `E <fmt> <w> <h> <color 0..11> <par 0|1> <seed>`     encode success / length
+//!   `T <fmt> <w> <h> <color 0..11> <seed>`               dithering acts only where advertised / requested
+//!   `G <fmt> <color 0..11>`                              dithering canary (which path `pick_encoder` takes)
+//!
+//! The oracle (strings returned in the second component) evaluates the clauses of C19 directly
+//! on the implementation: two API paths compared with each other, byte positions of a `Cursor`,
+//! stored bytes under different dithering options.  Nothing of it depends on the Lean model.
+use crate::common::*;
+use dds::header::*;
+use dds::*;
+use std::io::Cursor;
+use std::num::NonZeroU32;
+
+pub const FORMATS: [Format; 73] = [
+    Format::R8G8B8_UNORM,
+    Format::B8G8R8_UNORM,
+    Format::R8G8B8A8_UNORM,
+    Format::R8G8B8A8_SNORM,
+    Format::B8G8R8A8_UNORM,
+    Format::B8G8R8X8_UNORM,
+    Format::B5G6R5_UNORM,
+    Format::B5G5R5A1_UNORM,
+    Format::B4G4R4A4_UNORM,
+    Format::A4B4G4R4_UNORM,
+    Format::R8_SNORM,
+    Format::R8_UNORM,
+    Format::R8G8_UNORM,
+    Format::R8G8_SNORM,
+    Format::A8_UNORM,
+    Format::R16_UNORM,
+    Format::R16_SNORM,
+    Format::R16G16_UNORM,
+    Format::R16G16_SNORM,
+    Format::R16G16B16A16_UNORM,
+    Format::R16G16B16A16_SNORM,
+    Format::R10G10B10A2_UNORM,
+    Format::R11G11B10_FLOAT,
+    Format::R9G9B9E5_SHAREDEXP,
+    Format::R16_FLOAT,
+    Format::R16G16_FLOAT,
+    Format::R16G16B16A16_FLOAT,
+    Format::R32_FLOAT,
+    Format::R32G32_FLOAT,
+    Format::R32G32B32_FLOAT,
+    Format::R32G32B32A32_FLOAT,
+    Format::R10G10B10_XR_BIAS_A2_UNORM,
+    Format::AYUV,
+    Format::Y410,
+    Format::Y416,
+    Format::R1_UNORM,
+    Format::R8G8_B8G8_UNORM,
+    Format::G8R8_G8B8_UNORM,
+    Format::UYVY,
+    Format::YUY2,
+    Format::Y210,
+    Format::Y216,
+    Format::NV12,
+    Format::P010,
+    Format::P016,
+    Format::BC1_UNORM,
+    Format::BC2_UNORM,
+    Format::BC2_UNORM_PREMULTIPLIED_ALPHA,
+    Format::BC3_UNORM,
+    Format::BC3_UNORM_PREMULTIPLIED_ALPHA,
+    Format::BC4_UNORM,
+    Format::BC4_SNORM,
+    Format::BC5_UNORM,
+    Format::BC5_SNORM,
+    Format::BC6H_UF16,
+    Format::BC6H_SF16,
+    Format::BC7_UNORM,
+    Format::ASTC_4X4_UNORM,
+    Format::ASTC_5X4_UNORM,
+    Format::ASTC_5X5_UNORM,
+    Format::ASTC_6X5_UNORM,
+    Format::ASTC_6X6_UNORM,
+    Format::ASTC_8X5_UNORM,
+    Format::ASTC_8X6_UNORM,
+    Format::ASTC_8X8_UNORM,
+    Format::ASTC_10X5_UNORM,
+    Format::ASTC_10X6_UNORM,
+    Format::ASTC_10X8_UNORM,
+    Format::ASTC_10X10_UNORM,
+    Format::ASTC_12X10_UNORM,
+    Format::ASTC_12X12_UNORM,
+    Format::BC3_UNORM_RXGB,
+    Format::BC3_UNORM_NORMAL,
+];
+
+pub const COLORS: [ColorFormat; 12] = [
+    ColorFormat::GRAYSCALE_U8,
+    ColorFormat::ALPHA_U8,
+    ColorFormat::RGB_U8,
+    ColorFormat::RGBA_U8,
+    ColorFormat::GRAYSCALE_U16,
+    ColorFormat::ALPHA_U16,
+    ColorFormat::RGB_U16,
+    ColorFormat::RGBA_U16,
+    ColorFormat::GRAYSCALE_F32,
+    ColorFormat::ALPHA_F32,
+    ColorFormat::RGB_F32,
+    ColorFormat::RGBA_F32,
+];
+
+/// The FourCC codes the detection tables know (pinned here as numbers/ASCII, not read from the crate).
+pub fn known_four_ccs() -> Vec<u32> {
+    let mut v: Vec<u32> = [
+        b"DXT1", b"DXT2", b"DXT3", b"DXT4", b"DXT5", b"RXGB", b"DX10", b"ATI1", b"BC4U", b"BC4S", b"ATI2",
+        b"BC5U", b"BC5S", b"RGBG", b"GRGB", b"YUY2", b"UYVY",
+    ]
+    .iter()
+    .map(|b| u32::from_le_bytes(**b))
+    .collect();
+    v.extend_from_slice(&[36, 110, 111, 112, 113, 114, 115, 116]);
+    v
 }
-pub fn run(_line: &str) -> Option<(String, Vec<String>)> {
-    None
+
+/// The mask rows (flags, bit count, r, g, b, a) as pinned numbers (DDS_PIXELFORMAT conventions).
+pub const MASK_ROWS: [(u32, u32, u32, u32, u32, u32); 19] = [
+    (0x2, 8, 0, 0, 0, 0xFF),
+    (0x20000, 8, 0xFF, 0, 0, 0),
+    (0x20040, 8, 0xFF, 0, 0, 0),
+    (0x20000, 16, 0xFFFF, 0, 0, 0),
+    (0x40, 16, 0xF800, 0x07E0, 0x001F, 0),
+    (0x40, 32, 0xFF0000, 0xFF00, 0xFF, 0),
+    (0x40, 32, 0xFFFF, 0xFFFF0000, 0, 0),
+    (0x40, 16, 0xFF, 0xFF00, 0, 0),
+    (0x40, 24, 0xFF0000, 0xFF00, 0xFF, 0),
+    (0x40, 24, 0xFF, 0xFF00, 0xFF0000, 0),
+    (0x41, 16, 0xF00, 0xF0, 0xF, 0xF000),
+    (0x41, 16, 0x7C00, 0x3E0, 0x1F, 0x8000),
+    (0x41, 32, 0xFF0000, 0xFF00, 0xFF, 0xFF000000),
+    (0x41, 32, 0xFF, 0xFF00, 0xFF0000, 0xFF000000),
+    (0x41, 32, 0x3FF00000, 0xFFC00, 0x3FF, 0xC0000000),
+    (0x80000, 32, 0xFF, 0xFF00, 0xFF0000, 0xFF000000),
+    (0x80000, 16, 0xFF, 0xFF00, 0, 0),
+    (0x80000, 32, 0xFFFF, 0xFFFF0000, 0, 0),
+    (0x20001, 16, 0xFF, 0, 0, 0xFF00),
+];
+
+fn fmt_px(i: PixelInfo) -> String {
+    crate::c02::Px::from_info(i).fmt()
+}
+fn fmt_color(c: ColorFormat) -> String {
+    let ch = match c.channels {
+        Channels::Grayscale => "Gray",
+        Channels::Alpha => "Alpha",
+        Channels::Rgb => "Rgb",
+        Channels::Rgba => "Rgba",
+    };
+    let p = match c.precision {
+        Precision::U8 => "U8",
+        Precision::U16 => "U16",
+        Precision::F32 => "F32",
+    };
+    format!("{ch}/{p}")
+}
+fn fmt_dith(d: Dithering) -> &'static str {
+    match d {
+        Dithering::None => "N",
+        Dithering::Color => "C",
+        Dithering::Alpha => "A",
+        Dithering::ColorAndAlpha => "CA",
+    }
+}
+fn fmt_support(s: Option<EncodingSupport>) -> String {
+    match s {
+        None => "none".into(),
+        Some(s) => format!(
+            "d={},sh={},ld={},sm={}",
+            fmt_dith(s.dithering()),
+            s.split_height().map(|x| x.get().to_string()).unwrap_or("-".into()),
+            s.local_dithering() as u8,
+            s.size_multiple()
+                .map(|(a, b)| format!("{}x{}", a.get(), b.get()))
+                .unwrap_or("-".into())
+        ),
+    }
+}
+fn fmt_err(e: &FormatError) -> &'static str {
+    match e {
+        FormatError::UnsupportedDxgiFormat(_) => "dxgi",
+        FormatError::UnsupportedFourCC(_) => "fourcc",
+        FormatError::UnsupportedPixelFormat => "mask",
+        _ => "other",
+    }
+}
+/// the metadata every detected / listed format is printed with
+fn fmt_meta(f: Format) -> String {
+    let pi = PixelInfo::from(f);
+    format!(
+        "FP:{} C:{} B:{} S:{}",
+        fmt_px(pi),
+        fmt_color(f.color()),
+        pi.bits_per_pixel(),
+        fmt_support(f.encoding_support())
+    )
+}
+
+fn one() -> NonZeroU32 {
+    NonZeroU32::new(1).unwrap()
+}
+
+// ---------------------------------------------------------------------------------------------
+// generator
+
+pub fn gen(seed: u64, thorough: bool) -> Vec<String> {
+    let mut rng = Rng::new(seed);
+    let mut out = vec![];
+
+    // (0) metadata rows
+    for i in 0..FORMATS.len() {
+        out.push(format!("M {i}"));
+    }
+    // (1a) every u32 0..=255 as DXGI code x all 5 alpha modes x dims x misc
+    for code in 0..=255u32 {
+        for alpha in 0..5u32 {
+            let (dim, misc) = match (code + alpha) % 4 {
+                0 => (3, 0),
+                1 => (2, 0),
+                2 => (4, 0),
+                _ => (3, 4),
+            };
+            out.push(format!("H x {code} {alpha} {dim} {misc}"));
+        }
+    }
+    // (1b) FourCCs: table entries, their one-bit neighbours, boundaries, random
+    let known = known_four_ccs();
+    for &c in &known {
+        out.push(format!("H f {c}"));
+    }
+    for &c in &known {
+        for bit in 0..32 {
+            out.push(format!("H f {}", c ^ (1u32 << bit)));
+        }
+    }
+    for c in (0..=130u32).chain([u32::MAX, u32::MAX - 1, 0x8000_0000, 0x3154_5844 - 1, 0x3554_5844 + 1]) {
+        out.push(format!("H f {c}"));
+    }
+    let n_rand_cc = if thorough { 20000 } else { 600 };
+    for _ in 0..n_rand_cc {
+        let c = match rng.below(3) {
+            0 => rng.next() as u32,
+            1 => {
+                // ASCII-looking
+                let a = b"DXTBCATIRGUYV0123456789SU";
+                u32::from_le_bytes([*rng.pick(a), *rng.pick(a), *rng.pick(a), *rng.pick(a)])
+            }
+            _ => rng.below(256) as u32,
+        };
+        out.push(format!("H f {c}"));
+    }
+    // (1c) mask rows, single-bit perturbations of every field, other bit counts, random masks
+    for &(fl, bc, r, g, b, a) in &MASK_ROWS {
+        out.push(format!("H m {fl} {bc} {r} {g} {b} {a}"));
+        for other in [8u32, 16, 24, 32] {
+            if other != bc {
+                out.push(format!("H m {fl} {other} {r} {g} {b} {a}"));
+            }
+        }
+        let bits: Vec<u32> = if thorough { (0..32).collect() } else { vec![0, 1, 4, 5, 6, 7, 8, 15, 16, 17, 19, 24, 31] };
+        for &bit in &bits {
+            let m = 1u32 << bit;
+            out.push(format!("H m {} {bc} {r} {g} {b} {a}", fl ^ m));
+            out.push(format!("H m {fl} {bc} {} {g} {b} {a}", r ^ m));
+            out.push(format!("H m {fl} {bc} {r} {} {b} {a}", g ^ m));
+            out.push(format!("H m {fl} {bc} {r} {g} {} {a}", b ^ m));
+            out.push(format!("H m {fl} {bc} {r} {g} {b} {}", a ^ m));
+        }
+        // swapped channels
+        out.push(format!("H m {fl} {bc} {b} {g} {r} {a}"));
+        out.push(format!("H m {fl} {bc} {r} {g} {b} 0"));
+    }
+    for bc in [0u32, 1, 4, 7, 9, 12, 15, 17, 23, 25, 31, 33, 48, 64, 128, u32::MAX] {
+        out.push(format!("H m 64 {bc} 255 65280 16711680 0"));
+    }
+    let n_rand_m = if thorough { 20000 } else { 800 };
+    let fl_pool = [0u32, 1, 2, 4, 0x20, 0x40, 0x41, 0x200, 0x20000, 0x20001, 0x20040, 0x40000, 0x80000, 0xC0000];
+    let mask_pool = [0u32, 0xFF, 0xFF00, 0xFF0000, 0xFF000000, 0xFFFF, 0xFFFF0000, 0xF800, 0x7E0, 0x1F, 0x7C00, 0x3E0, 0x8000, 0xF, 0xF0, 0xF00, 0xF000, 0x3FF, 0xFFC00, 0x3FF00000, 0xC0000000];
+    for _ in 0..n_rand_m {
+        let fl = if rng.chance(4, 5) { *rng.pick(&fl_pool) } else { rng.next() as u32 };
+        let bc = *rng.pick(&[8u32, 16, 24, 32]);
+        let m = |rng: &mut Rng| if rng.chance(5, 6) { *rng.pick(&mask_pool) } else { rng.next() as u32 };
+        let (r, g, b, a) = (m(&mut rng), m(&mut rng), m(&mut rng), m(&mut rng));
+        out.push(format!("H m {fl} {bc} {r} {g} {b} {a}"));
+    }
+
+    // (2) codecs against the table
+    let nf = FORMATS.len();
+    if thorough {
+        for f in 0..nf {
+            for w in 1..=32u32 {
+                for h in 1..=32u32 {
+                    out.push(format!("D {f} {w} {h} {}", rng.next() % 1000));
+                    out.push(format!("E {f} {w} {h} {} {} {}", rng.below(12), rng.below(2), rng.next() % 1000));
+                }
+            }
+        }
+    } else {
+        // every format x every width 1..32 and every height 1..32 (paired with a varying partner),
+        for f in 0..nf {
+            for a in 1..=32u32 {
+                let b = 1 + ((a * 7 + f as u32 * 3) % 32);
+                out.push(format!("D {f} {a} {b} {}", rng.next() % 1000));
+                out.push(format!("D {f} {b} {a} {}", rng.next() % 1000));
+                out.push(format!("E {f} {a} {b} {} {} {}", rng.below(12), rng.below(2), rng.next() % 1000));
+                out.push(format!("E {f} {b} {a} {} {} {}", rng.below(12), rng.below(2), rng.next() % 1000));
+            }
+            // all small sizes both dims
+            for w in 1..=6u32 {
+                for h in 1..=6u32 {
+                    out.push(format!("D {f} {w} {h} {}", rng.next() % 1000));
+                    out.push(format!("E {f} {w} {h} {} {} {}", rng.below(12), rng.below(2), rng.next() % 1000));
+                }
+            }
+        }
+    }
+    // every colour format for every format at two sizes
+    for f in 0..nf {
+        for c in 0..12 {
+            out.push(format!("E {f} 6 4 {c} 0 {}", rng.next() % 1000));
+            out.push(format!("E {f} 5 3 {c} 1 {}", rng.next() % 1000));
+        }
+    }
+
+    // (3a) dithering canary: a fixed smooth RGBA f32 gradient on which every dithering path visibly
+    // differs from the plain path; ties `pick_encoder` (which path is taken) to the model
+    for f in 0..nf {
+        // f32 inputs only: integer inputs are often exactly representable, so that a dithering path
+        // legitimately produces the same bytes
+        // (and RGBA only: a constant alpha of 1.0 is exactly representable as well)
+        out.push(format!("G {f} 11"));
+    }
+    // (3) dithering
+    let sizes: &[(u32, u32)] = &[(8, 8), (4, 4), (6, 2), (2, 6), (12, 4), (16, 16), (10, 10), (32, 2), (2, 2), (14, 6)];
+    let reps = if thorough { 12 } else { 1 };
+    for f in 0..nf {
+        for c in 0..12 {
+            for rep in 0..reps {
+                let (w, h) = sizes[(f + c + rep) % sizes.len()];
+                out.push(format!("T {f} {w} {h} {c} {}", rng.next() % 100000));
+            }
+        }
+        // extra weight on the f32 / u16 RGBA inputs, where dithering is not short-cut by exact encoders
+        let extra = if thorough { 40 } else { 4 };
+        for k in 0..extra {
+            let c = [11usize, 7, 11, 10][k % 4];
+            let (w, h) = *rng.pick(sizes);
+            out.push(format!("T {f} {w} {h} {c} {}", rng.next() % 100000));
+        }
+    }
+    out
+}
+
+// ---------------------------------------------------------------------------------------------
+// implementation side
+
+fn header_of(t: &[&str]) -> Result<Header, &'static str> {
+    match t[1] {
+        "x" => {
+            if t.len() != 6 {
+                return Err("bad-case");
+            }
+            let code = p_u32(t[2]).ok_or("bad-case")?;
+            let alpha = p_u32(t[3]).ok_or("bad-case")?;
+            let dim = p_u32(t[4]).ok_or("bad-case")?;
+            let misc = p_u32(t[5]).ok_or("bad-case")?;
+            let alpha_mode = AlphaMode::try_from(alpha).map_err(|_| "bad-case")?;
+            let resource_dimension = ResourceDimension::try_from(dim).map_err(|_| "bad-case")?;
+            let dxgi_format = DxgiFormat::try_from(code).map_err(|_| "invalid-dxgi")?;
+            Ok(Header::Dx10(Dx10Header {
+                height: 4,
+                width: 4,
+                depth: if dim == 4 { Some(2) } else { None },
+                mipmap_count: one(),
+                dxgi_format,
+                resource_dimension,
+                misc_flag: MiscFlags::from_bits_retain(misc),
+                array_size: 1,
+                alpha_mode,
+            }))
+        }
+        "f" => {
+            if t.len() != 3 {
+                return Err("bad-case");
+            }
+            let cc = p_u32(t[2]).ok_or("bad-case")?;
+            Ok(Header::Dx9(Dx9Header {
+                height: 4,
+                width: 4,
+                depth: None,
+                mipmap_count: one(),
+                caps2: Caps2::empty(),
+                pixel_format: Dx9PixelFormat::FourCC(FourCC(cc)),
+            }))
+        }
+        "m" => {
+            if t.len() != 8 {
+                return Err("bad-case");
+            }
+            let v: Option<Vec<u32>> = t[2..8].iter().map(|s| p_u32(s)).collect();
+            let v = v.ok_or("bad-case")?;
+            let rgb_bit_count = RgbBitCount::try_from(v[1]).map_err(|_| "invalid-bitcount")?;
+            Ok(Header::Dx9(Dx9Header {
+                height: 4,
+                width: 4,
+                depth: None,
+                mipmap_count: one(),
+                caps2: Caps2::empty(),
+                pixel_format: Dx9PixelFormat::Mask(MaskPixelFormat {
+                    flags: PixelFormatFlags::from_bits_retain(v[0]),
+                    rgb_bit_count,
+                    r_bit_mask: v[2],
+                    g_bit_mask: v[3],
+                    b_bit_mask: v[4],
+                    a_bit_mask: v[5],
+                }),
+            }))
+        }
+        _ => Err("bad-case"),
+    }
+}
+
+fn run_header(t: &[&str]) -> Option<(String, Vec<String>)> {
+    if t.len() < 3 {
+        return None;
+    }
+    let header = match header_of(t) {
+        Ok(h) => h,
+        Err("bad-case") => return None,
+        Err(e) => return Some((e.to_string(), vec![])),
+    };
+    let mut oracle = vec![];
+    let f = Format::from_header(&header);
+    let p = PixelInfo::from_header(&header);
+    let mut s = String::new();
+    match &f {
+        Ok(f) => s += &format!("F:{:?}", f),
+        Err(e) => s += &format!("F:E:{}", fmt_err(e)),
+    }
+    match &p {
+        Ok(p) => s += &format!(" P:{}", fmt_px(*p)),
+        Err(e) => s += &format!(" P:E:{}", fmt_err(e)),
+    }
+    if let Ok(f) = f {
+        s += " ";
+        s += &fmt_meta(f);
+        // ---- oracle, clause (a): the two ways of obtaining the layout coincide
+        match p {
+            Ok(p) => {
+                if p != PixelInfo::from(f) {
+                    oracle.push(format!(
+                        "PixelInfo::from_header = {:?} but PixelInfo::from({:?}) = {:?}",
+                        p,
+                        f,
+                        PixelInfo::from(f)
+                    ));
+                }
+                // the layouts built with and without the decoder's format coincide
+                let l1 = DataLayout::from_header(&header).ok();
+                let l2 = DataLayout::from_header_with(&header, PixelInfo::from(f)).ok();
+                if l1 != l2 {
+                    oracle.push("DataLayout::from_header differs from from_header_with(format pixel info)".into());
+                }
+            }
+            Err(_) => oracle.push(format!("format {:?} detected but PixelInfo::from_header fails", f)),
+        }
+    }
+    Some((s, oracle))
+}
+
+fn run_meta(t: &[&str]) -> Option<(String, Vec<String>)> {
+    let i = p_usize(t.get(1)?)?;
+    let f = *FORMATS.get(i)?;
+    let mut oracle = vec![];
+    let dx = DxgiFormat::try_from(f).ok();
+    let cc = FourCC::try_from(f).ok();
+    let mk = MaskPixelFormat::try_from(f).ok();
+    let s = format!(
+        "M:{:?} {} X:{} 4:{} K:{}",
+        f,
+        fmt_meta(f),
+        dx.map(|d| u32::from(d).to_string()).unwrap_or("-".into()),
+        cc.map(|c| c.0.to_string()).unwrap_or("-".into()),
+        mk.as_ref()
+            .map(|m| format!(
+                "{},{},{},{},{},{}",
+                m.flags.bits(),
+                u32::from(m.rgb_bit_count),
+                m.r_bit_mask,
+                m.g_bit_mask,
+                m.b_bit_mask,
+                m.a_bit_mask
+            ))
+            .unwrap_or("-".into())
+    );
+    // ---- oracle: the header written for a format is detected as that format (metadata round trip),
+    // except for BC3_UNORM_NORMAL which is documented as not detectable.
+    let pi = PixelInfo::from(f);
+    let hdr = Header::new_image(4, 4, f);
+    match Format::from_header(&hdr) {
+        Ok(g) if g == f || f == Format::BC3_UNORM_NORMAL => {}
+        other => oracle.push(format!("Header::new_image(.., {:?}) is detected as {:?}", f, other)),
+    }
+    if PixelInfo::from_header(&hdr).ok() != Some(pi) {
+        oracle.push(format!("Header::new_image(.., {:?}) has another pixel info than the format", f));
+    }
+    // bits per pixel against the surface length of a large surface (independent formula)
+    let size = Size::new(720, 720);
+    let bytes = pi.surface_bytes(size).unwrap_or(0) as u128;
+    let bpp = (bytes * 8 + size.pixels() as u128 - 1) / size.pixels() as u128;
+    if bpp != pi.bits_per_pixel() as u128 {
+        oracle.push(format!("bits_per_pixel {} != {} derived from surface_bytes", pi.bits_per_pixel(), bpp));
+    }
+    Some((s, oracle))
+}
+
+fn rand_bytes(rng: &mut Rng, n: usize, zero: bool) -> Vec<u8> {
+    let mut v = vec![0u8; n];
+    if !zero {
+        let mut i = 0;
+        while i < n {
+            let x = rng.next().to_le_bytes();
+            let k = (n - i).min(8);
+            v[i..i + k].copy_from_slice(&x[..k]);
+            i += k;
+        }
+    }
+    v
+}
+
+fn run_decode(t: &[&str]) -> Option<(String, Vec<String>)> {
+    if t.len() != 5 {
+        return None;
+    }
+    let f = *FORMATS.get(p_usize(t[1])?)?;
+    let (w, h) = (p_u32(t[2])?, p_u32(t[3])?);
+    let seed = p_u64(t[4])?;
+    if w == 0 || h == 0 || w > 4096 || h > 4096 {
+        return None;
+    }
+    let mut rng = Rng::new(seed ^ 0xC19);
+    let size = Size::new(w, h);
+    let mut oracle = vec![];
+    let advertised = PixelInfo::from(f).surface_bytes(size)?;
+    let extra = 9usize;
+    let data = rand_bytes(&mut rng, advertised as usize + extra, seed % 3 == 0);
+    let color = if seed % 2 == 0 { f.color() } else { *rng.pick(&COLORS) };
+    let mut buf = vec![0u8; color.buffer_size(size)?];
+    // u16 / f32 views need alignment of the element type? ImageViewMut::new takes bytes; alignment is
+    // handled inside the crate.
+    let mut cur = Cursor::new(&data[..]);
+    let view = ImageViewMut::new(&mut buf, size, color)?;
+    let r = decode(&mut cur, view, f, &DecodeOptions::default());
+    let s = match r {
+        Ok(()) => format!("ok {}", cur.position()),
+        Err(e) => format!("err {}", short_dec_err(&e)),
+    };
+    if r_is_ok(&s) {
+        if cur.position() != advertised {
+            oracle.push(format!(
+                "decode of {:?} {}x{} consumed {} bytes, advertised {}",
+                f,
+                w,
+                h,
+                cur.position(),
+                advertised
+            ));
+        }
+    } else {
+        oracle.push(format!("decode of {:?} {}x{} from {} bytes failed: {}", f, w, h, data.len(), s));
+    }
+    // one byte less than advertised must not be enough
+    if advertised > 0 {
+        let mut cur = Cursor::new(&data[..advertised as usize - 1]);
+        let view = ImageViewMut::new(&mut buf, size, color)?;
+        if decode(&mut cur, view, f, &DecodeOptions::default()).is_ok() {
+            oracle.push(format!("decode of {:?} {}x{} succeeded with {} bytes, advertised {}", f, w, h, advertised - 1, advertised));
+        }
+        // exactly the advertised bytes are enough
+        let mut cur = Cursor::new(&data[..advertised as usize]);
+        let view = ImageViewMut::new(&mut buf, size, color)?;
+        if decode(&mut cur, view, f, &DecodeOptions::default()).is_err() {
+            oracle.push(format!("decode of {:?} {}x{} fails with exactly the advertised {} bytes", f, w, h, advertised));
+        }
+    }
+    Some((s, oracle))
+}
+fn r_is_ok(s: &str) -> bool {
+    s.starts_with("ok")
+}
+fn short_dec_err(e: &DecodingError) -> String {
+    match e {
+        DecodingError::Io(_) => "Io".into(),
+        DecodingError::MemoryLimitExceeded => "MemoryLimitExceeded".into(),
+        other => format!("{:?}", other).split('(').next().unwrap_or("?").to_string(),
+    }
+}
+
+/// image data in the given colour format; f32 values mostly in [0,1], some slightly outside
+fn rand_image(rng: &mut Rng, size: Size, color: ColorFormat, smooth: bool) -> Vec<u8> {
+    let n = size.pixels() as usize * color.channels.count() as usize;
+    let mut out = Vec::with_capacity(n * color.precision.size() as usize);
+    let base: Vec<f32> = (0..4).map(|_| (rng.below(1001) as f32) / 1000.0).collect();
+    for i in 0..n {
+        let ch = i % color.channels.count() as usize;
+        let v: f32 = if smooth {
+            // slowly varying values: where error diffusion matters most
+            let t = (i / color.channels.count() as usize) as f32 / (size.pixels() as f32);
+            (base[ch] * 0.5 + 0.5 * t + (rng.below(100) as f32) / 2000.0).min(1.0)
+        } else {
+            match rng.below(20) {
+                0 => 0.0,
+                1 => 1.0,
+                2 => -0.25,
+                3 => 1.5,
+                _ => (rng.below(1 << 20) as f32) / ((1 << 20) as f32),
+            }
+        };
+        match color.precision {
+            Precision::U8 => out.push((v.clamp(0.0, 1.0) * 255.0 + 0.5) as u8),
+            Precision::U16 => out.extend_from_slice(&(((v.clamp(0.0, 1.0) * 65535.0) + 0.5) as u16).to_ne_bytes()),
+            Precision::F32 => out.extend_from_slice(&v.to_ne_bytes()),
+        }
+    }
+    out
+}
+
+fn enc_err(e: &EncodingError) -> String {
+    match e {
+        EncodingError::UnsupportedFormat(_) => "UnsupportedFormat".into(),
+        EncodingError::InvalidSize(a, b) => format!("InvalidSize:{}x{}", a.get(), b.get()),
+        EncodingError::Io(_) => "Io".into(),
+        other => format!("{:?}", other).split('(').next().unwrap_or("?").to_string(),
+    }
+}
+
+fn run_encode(t: &[&str]) -> Option<(String, Vec<String>)> {
+    if t.len() != 7 {
+        return None;
+    }
+    let f = *FORMATS.get(p_usize(t[1])?)?;
+    let (w, h) = (p_u32(t[2])?, p_u32(t[3])?);
+    let color = *COLORS.get(p_usize(t[4])?)?;
+    let par = p_u32(t[5])? != 0;
+    let seed = p_u64(t[6])?;
+    if w == 0 || h == 0 || w > 4096 || h > 4096 {
+        return None;
+    }
+    let mut rng = Rng::new(seed ^ 0xE19);
+    let size = Size::new(w, h);
+    let img = rand_image(&mut rng, size, color, false);
+    let view = ImageView::new(&img, size, color)?;
+    let mut options = EncodeOptions::default();
+    options.parallel = par;
+    options.quality = CompressionQuality::Fast;
+    options.dithering = *rng.pick(&[Dithering::None, Dithering::None, Dithering::Color, Dithering::Alpha, Dithering::ColorAndAlpha]);
+    let mut outv: Vec<u8> = vec![];
+    let r = encode(&mut outv, view, f, None, &options);
+    let s = match &r {
+        Ok(()) => format!("ok {}", outv.len()),
+        Err(e) => format!("err {}", enc_err(e)),
+    };
+    // ---- oracle, clause (b): encoding succeeds exactly for supported sizes, and writes the advertised bytes
+    let mut oracle = vec![];
+    let support = f.encoding_support();
+    let expect_ok = support.map(|s| s.supports_size(size)).unwrap_or(false);
+    if r.is_ok() != expect_ok {
+        oracle.push(format!(
+            "encode {:?} {}x{} {}: result {} but encoding_support says {}",
+            f,
+            w,
+            h,
+            fmt_color(color),
+            s,
+            match support {
+                None => "not encodable".to_string(),
+                Some(su) => format!("supports_size={}", su.supports_size(size)),
+            }
+        ));
+    }
+    if r.is_ok() {
+        let adv = PixelInfo::from(f).surface_bytes(size);
+        if Some(outv.len() as u64) != adv {
+            oracle.push(format!("encode {:?} {}x{} wrote {} bytes, advertised {:?}", f, w, h, outv.len(), adv));
+        }
+    }
+    if let (Err(EncodingError::InvalidSize(a, b)), Some(su)) = (&r, support) {
+        if su.size_multiple() != Some((*a, *b)) {
+            oracle.push(format!("InvalidSize({},{}) differs from the advertised size multiple {:?}", a, b, su.size_multiple()));
+        }
+    }
+    Some((s, oracle))
+}
+
+/// Where the alpha channel is stored, per repeating unit of the encoded surface:
+/// (unit bytes, mask over the unit with 0xFF.. on alpha bits). Pinned from the format definitions
+/// (DXGI / DDS programming guide), little endian. `None` = the format is outside the class
+/// "stores alpha independently of colour" (BC1: punch-through, BC7: joint modes).
+pub fn alpha_layout(f: Format) -> Option<(usize, Vec<u8>)> {
+    use Format::*;
+    let m = |unit: usize, bits: &[usize]| -> Option<(usize, Vec<u8>)> {
+        let mut v = vec![0u8; unit];
+        for &b in bits {
+            v[b / 8] |= 1 << (b % 8);
+        }
+        Some((unit, v))
+    };
+    let range = |a: usize, b: usize| -> Vec<usize> { (a..b).collect() };
+    match f {
+        BC1_UNORM | BC7_UNORM => None,
+        // not encodable: nothing to compare
+        BC6H_UF16 | BC6H_SF16 => None,
+        R8G8B8A8_UNORM | R8G8B8A8_SNORM | B8G8R8A8_UNORM | AYUV => m(4, &range(24, 32)),
+        B5G5R5A1_UNORM => m(2, &[15]),
+        B4G4R4A4_UNORM => m(2, &range(12, 16)),
+        A4B4G4R4_UNORM => m(2, &range(0, 4)),
+        A8_UNORM => m(1, &range(0, 8)),
+        R16G16B16A16_UNORM | R16G16B16A16_SNORM | R16G16B16A16_FLOAT | Y416 => m(8, &range(48, 64)),
+        R10G10B10A2_UNORM | R10G10B10_XR_BIAS_A2_UNORM | Y410 => m(4, &range(30, 32)),
+        R32G32B32A32_FLOAT => m(16, &range(96, 128)),
+        BC2_UNORM | BC2_UNORM_PREMULTIPLIED_ALPHA | BC3_UNORM | BC3_UNORM_PREMULTIPLIED_ALPHA => {
+            m(16, &range(0, 64))
+        }
+        // everything else stores no alpha: every stored bit is colour
+        _ => m(1, &[]),
+    }
+}
+
+fn split_bits(bytes: &[u8], unit: usize, mask: &[u8]) -> (Vec<u8>, Vec<u8>) {
+    let mut a = Vec::with_capacity(bytes.len());
+    let mut c = Vec::with_capacity(bytes.len());
+    for (i, &b) in bytes.iter().enumerate() {
+        let m = mask[i % unit];
+        a.push(b & m);
+        c.push(b & !m);
+    }
+    (a, c)
+}
+
+fn run_dither(t: &[&str]) -> Option<(String, Vec<String>)> {
+    if t.len() != 6 {
+        return None;
+    }
+    let fi = p_usize(t[1])?;
+    let f = *FORMATS.get(fi)?;
+    let (w, h) = (p_u32(t[2])?, p_u32(t[3])?);
+    let color = *COLORS.get(p_usize(t[4])?)?;
+    let seed = p_u64(t[5])?;
+    if w == 0 || h == 0 || w > 256 || h > 256 {
+        return None;
+    }
+    let support = match f.encoding_support() {
+        None => return Some(("unsupported".into(), vec![])),
+        Some(s) => s,
+    };
+    let size = Size::new(w, h);
+    if !support.supports_size(size) {
+        return Some(("unsupported-size".into(), vec![]));
+    }
+    let mut rng = Rng::new(seed ^ 0xD19);
+    let img = rand_image(&mut rng, size, color, seed % 2 == 0);
+    let mut outs: Vec<Vec<u8>> = vec![];
+    for d in [Dithering::None, Dithering::Color, Dithering::Alpha, Dithering::ColorAndAlpha] {
+        let view = ImageView::new(&img, size, color)?;
+        let mut options = EncodeOptions::default();
+        options.parallel = seed % 5 == 0;
+        options.quality = if seed % 7 == 0 { CompressionQuality::Normal } else { CompressionQuality::Fast };
+        options.dithering = d;
+        let mut o: Vec<u8> = vec![];
+        if let Err(e) = encode(&mut o, view, f, None, &options) {
+            return Some((format!("err {}", enc_err(&e)), vec![format!("encode failed for a supported size: {}", enc_err(&e))]));
+        }
+        outs.push(o);
+    }
+    let (n, c, a, ca) = (&outs[0], &outs[1], &outs[2], &outs[3]);
+    let adv = support.dithering();
+    let e = |x: &Vec<u8>, y: &Vec<u8>| if x == y { "1" } else { "0" };
+    let mut s = format!("adv={} C={} A={} CA={} CA~C={} CA~A={}", fmt_dith(adv), e(n, c), e(n, a), e(n, ca), e(ca, c), e(ca, a));
+    let mut oracle = vec![];
+    let ctx = format!("{:?} {}x{} {} seed {}", f, w, h, fmt_color(color), seed);
+    // ---- oracle, clause (c)
+    // formats advertising no dithering for a channel group ignore the option for it
+    if !adv.color() {
+        if n != c {
+            oracle.push(format!("{ctx}: colour dithering not advertised but Dithering::Color changes the output"));
+        }
+        if a != ca {
+            oracle.push(format!("{ctx}: colour dithering not advertised but ColorAndAlpha differs from Alpha"));
+        }
+    }
+    if !adv.alpha() {
+        if n != a {
+            oracle.push(format!("{ctx}: alpha dithering not advertised but Dithering::Alpha changes the output"));
+        }
+        if c != ca {
+            oracle.push(format!("{ctx}: alpha dithering not advertised but ColorAndAlpha differs from Color"));
+        }
+    }
+    // formats that store alpha independently of colour
+    match alpha_layout(f) {
+        None => s += " aNC=- cNA=-",
+        Some((unit, mask)) => {
+            let (an, cn) = split_bits(n, unit, &mask);
+            let (ac, _) = split_bits(c, unit, &mask);
+            let (_, ca_) = split_bits(a, unit, &mask);
+            s += &format!(" aNC={} cNA={}", e(&an, &ac), e(&cn, &ca_));
+            if an != ac {
+                let at = an.iter().zip(ac.iter()).position(|(x, y)| x != y).unwrap_or(0);
+                oracle.push(format!(
+                    "{ctx}: colour-only dithering changed the stored alpha (first difference at byte {at}: {:#04x} vs {:#04x})",
+                    an[at], ac[at]
+                ));
+            }
+            if cn != ca_ {
+                let at = cn.iter().zip(ca_.iter()).position(|(x, y)| x != y).unwrap_or(0);
+                oracle.push(format!(
+                    "{ctx}: alpha-only dithering changed the stored colour (first difference at byte {at}: {:#04x} vs {:#04x})",
+                    cn[at], ca_[at]
+                ));
+            }
+        }
+    }
+    Some((s, oracle))
+}
+
+/// Canary: 48x8 gradient, every channel a different slow ramp through non-representable values.
+fn run_canary(t: &[&str]) -> Option<(String, Vec<String>)> {
+    if t.len() != 3 {
+        return None;
+    }
+    let f = *FORMATS.get(p_usize(t[1])?)?;
+    let color = *COLORS.get(p_usize(t[2])?)?;
+    let support = match f.encoding_support() {
+        None => return Some(("unsupported".into(), vec![])),
+        Some(s) => s,
+    };
+    let size = Size::new(48, 8);
+    if !support.supports_size(size) {
+        return Some(("unsupported-size".into(), vec![]));
+    }
+    let nch = color.channels.count() as usize;
+    let mut img: Vec<u8> = vec![];
+    for y in 0..8usize {
+        for x in 0..48usize {
+            for ch in 0..nch {
+                let k = (x * (5 + 2 * ch) + y * (17 + 4 * ch) + 31 * ch) % 397;
+                let v = k as f32 / 397.0;
+                match color.precision {
+                    Precision::U8 => img.push((v * 255.0 + 0.5) as u8),
+                    Precision::U16 => img.extend_from_slice(&((v * 65535.0 + 0.5) as u16).to_ne_bytes()),
+                    Precision::F32 => img.extend_from_slice(&v.to_ne_bytes()),
+                }
+            }
+        }
+    }
+    let mut outs: Vec<Vec<u8>> = vec![];
+    for d in [Dithering::None, Dithering::Color, Dithering::Alpha, Dithering::ColorAndAlpha] {
+        let view = ImageView::new(&img, size, color)?;
+        let mut options = EncodeOptions::default();
+        options.parallel = false;
+        options.quality = CompressionQuality::Fast;
+        options.dithering = d;
+        let mut o: Vec<u8> = vec![];
+        if encode(&mut o, view, f, None, &options).is_err() {
+            return Some(("err".into(), vec!["encode failed for a supported size".into()]));
+        }
+        outs.push(o);
+    }
+    let e = |x: &Vec<u8>, y: &Vec<u8>| if x == y { "1" } else { "0" };
+    Some((format!("C={} A={} CA={}", e(&outs[0], &outs[1]), e(&outs[0], &outs[2]), e(&outs[0], &outs[3])), vec![]))
+}
+
+pub fn run(line: &str) -> Option<(String, Vec<String>)> {
+    let t = toks(line);
+    match *t.first()? {
+        "G" => run_canary(&t),
+        "H" => run_header(&t),
+        "M" => run_meta(&t),
+        "D" => run_decode(&t),
+        "E" => run_encode(&t),
+        "T" => run_dither(&t),
+        _ => None,
+    }
 }
